@@ -340,6 +340,8 @@ class Run:
         self.coverage = {"samples": []}
         self.assumptions = []
         self.seed = seed()
+        import threading
+        self._lock = threading.RLock()
 
     def note(self, msg):
         self.notes.append(msg)
@@ -359,6 +361,10 @@ class Run:
 
     def violation(self, shape, replay_obj, what):
         """Report behaviour of the real code that violates the property. Known findings are matched first."""
+        with self._lock:
+            return self._violation(shape, replay_obj, what)
+
+    def _violation(self, shape, replay_obj, what):
         f = match_finding(self.prop, shape)
         if f is not None:
             fid = f.get("id", "?")
